@@ -89,8 +89,16 @@ def _run_entry(args):
         spec, binding = entry_from_json(ej)
         need_fo = "C08" in pids
         ctx = make_ctx(spec, binding, need_fo=need_fo)
-        _determinism_selftest(ctx)
-        if not ctx.rows_ok and "C09" in pids:
+        nondet = None
+        try:
+            _determinism_selftest(ctx)
+        except HarnessError as e:
+            # The same schedule (same states, actions, scripted draws) replayed twice on one environment gave
+            # different results. Every source of randomness is scripted, so either the machinery lost control of
+            # one (a harness error) or the code under test keeps hidden state between calls. The exploration goes
+            # on: if an oracle then reports a concrete violation that stands; silence is NOT trusted (exit 2).
+            nondet = str(e)
+        if (not ctx.rows_ok or ctx.rows_fallback) and "C09" in pids:
             ctx.report("C09", "address_one_hots_do_not_reproduce_the_scenario_hosts", key=None,
                        detail={"tensor_shape": list(ctx.env.current_state.tensor.shape),
                                "documented_shape": [ctx.layout.nhosts, ctx.layout.width]})
@@ -105,8 +113,13 @@ def _run_entry(args):
             from .explore import plan_path_keys
             expand_only = plan_path_keys(ctx, cap=spec.get("_path_cap"))
         res = explore(ctx, oracles, max_states=opts.get("max_states") or spec.get("_max_states"), expand_only=expand_only)
+        nontrivial_first_pass = dict(ctx.nontrivial)     # distinct cases: counted in the first pass only
         param_transitions = 0
-        nontrivial_first_pass = dict(ctx.nontrivial)     # distinct cases: counted in the object pass only
+        if expand_only is not None and oracles:
+            # path-bounded scenarios are cheap: expand the same states again in the opposite order
+            oracles_r = [ORACLES[p]() for p in pids if p in ORACLES]
+            res_r = explore(ctx, oracles_r, expand_only=expand_only, reverse=True)
+            param_transitions += res_r["transitions"]
         if opts.get("param_pass") and oracles:
             oracles2 = [ORACLES[p]() for p in pids if p in ORACLES]
             res2 = explore(ctx, oracles2, max_states=opts.get("max_states") or spec.get("_max_states"), action_rep="param",
@@ -117,6 +130,8 @@ def _run_entry(args):
             import importlib
             mod = importlib.import_module(f"mc.{mod_name}")
             extra[mod_name] = mod.post_explore(ctx, res, pids, opts)
+        if nondet and not ctx.violations:
+            raise HarnessError(nondet + " (and no oracle reported a violation)")
         out.update({
             "states": res["states"], "transitions": res["transitions"], "capped": res["capped"],
             "stats": {f"{k[0]}|{k[1]}": v for k, v in ctx.stats.items()},
